@@ -246,6 +246,10 @@ func (c *RtspClient) Close() {
 	c.mu.Unlock()
 }
 
+// CloseCommandOnly closes the RTSP command connection and leaves the UDP sockets open, so that RTP
+// can still be sent after the session's end was signalled (a publisher that crashed its TCP side).
+func (c *RtspClient) CloseCommandOnly() { c.Conn.Close() }
+
 func (c *RtspClient) Closed() bool {
 	c.mu.Lock()
 	defer c.mu.Unlock()
